@@ -219,6 +219,18 @@ UnnamedCode(s) == CASE s.k = "null" -> "n" [] s.k = "boolean" -> "B" [] s.k = "i
                     [] s.k = "float" -> "f" [] s.k = "double" -> "d" [] s.k = "bytes" -> "b" [] s.k = "string" -> "s"
                     [] OTHER -> "?"
 
+(* Schema::unique_normalized_name: the code of a schema inside generated record names.  Named types contribute
+   r<length>_<name with every non-alphanumeric character replaced by '_'>; the names used by the scenarios are tabulated *)
+NormNamed(full) == CASE full = "Inner" -> "r5_Inner" [] full = "ns.Inner" -> "r8_ns_Inner" [] OTHER -> "r?_" \o full
+RECURSIVE UniqueName(_)
+UniqueName(s) ==
+  CASE s.k = "array" -> "a_" \o UniqueName(s.items)
+    [] s.k = "map" -> "m_" \o UniqueName(s.values)
+    [] s.k = "union" -> "u" \o ToString(Len(s.branches)) \o "_" \o UniqueName(s.branches[1])
+                        \o (IF Len(s.branches) >= 2 THEN "_" \o UniqueName(s.branches[2]) ELSE "")
+    [] s.k \in {"record", "enum", "fixed", "ref", "duration"} -> NormNamed(s.name)
+    [] OTHER -> UnnamedCode(s)
+
 Once(full, named, Build(_)) ==
   IF full \in named THEN [s |-> [k |-> "ref", name |-> full], named |-> named]
   ELSE Build(named \cup {full})
@@ -308,17 +320,21 @@ SchemaCtx(defs, ft, named, encns) ==
     [] ft.f = "vec" -> LET t == SchemaCtx(defs, ft.of, named, encns) IN [s |-> [k |-> "array", items |-> t.s], named |-> t.named]
     [] ft.f = "map" -> LET t == SchemaCtx(defs, ft.of, named, encns) IN [s |-> [k |-> "map", values |-> t.s], named |-> t.named]
     [] ft.f = "box" -> SchemaCtx(defs, ft.of, named, encns)
-    [] ft.f = "array" ->        \* [T; N]: null / T / a record A<N>_<code of T> with fields field_0.. (T unnamed here)
+    [] ft.f = "array" ->        \* [T; N]: null / T / a record A<N>_<normalized name of T's schema> with fields field_0..
          IF ft.n = 0 THEN [s |-> [k |-> "null"], named |-> named]
          ELSE IF ft.n = 1 THEN SchemaCtx(defs, ft.of, named, encns)
          ELSE LET t == SchemaCtx(defs, ft.of, named, encns)
-                  nm == "A" \o ToString(ft.n) \o "_" \o UnnamedCode(t.s)
+                  nm == "A" \o ToString(ft.n) \o "_" \o UniqueName(t.s)
                   full == FullOf(nm, encns)
               IN Once(full, t.named, LAMBDA nn :
+                   \* field_0 carries T's schema as first derived; the other fields what T derives to NOW (named types,
+                   \* wherever they sit inside T - option, vec, map - are references by then)
+                   LET t2 == SchemaCtx(defs, ft.of, nn, encns) IN
                    [s |-> RecT(full, nm, "", <<>>,
-                               [i \in 1..ft.n |-> FieldT("field_" \o ToString(i - 1), t.s, "", <<>>, TraitDefault(defs, ft.of))],
+                               [i \in 1..ft.n |-> FieldT("field_" \o ToString(i - 1), IF i = 1 THEN t.s ELSE t2.s, "", <<>>,
+                                                          TraitDefault(defs, ft.of))],
                                FALSE, FALSE),
-                    named |-> nn])
+                    named |-> t2.named])
     [] ft.f = "named" ->
          LET d == DefOf(defs, ft.id)
              nm == TypeName(d)
